@@ -116,7 +116,7 @@ def run(ctx):
 
 def label_rule(ctx):
     """The population entering the loop is labelled with the temperature the loop starts from."""
-    from .smcloop import SMC, fold_sample
+    from .smcloop import SMC, fold_sample, roles
     repo = ctx.repo
     smc = repo.cls(SMC)
     sample = smc.methods["sample"]
@@ -127,7 +127,8 @@ def label_rule(ctx):
         if lp is None:
             ctx.unknown("C09.label", sample.ident, loc_of(sample), f"[{tag}] loop not recorded")
             continue
-        ps, pb = lp["pre"].get("samples"), lp["pre"].get("beta")
+        R = roles(repo)
+        ps, pb = lp["pre"].get(R.samples), lp["pre"].get(R.beta)
         if not resumed:
             lab = dict(ps[3]).get("beta") if ps is not None and ps[0] == "f" and "from_samples" in ps[1] else None
             if ps is not None and ps[0] == "obj":
